@@ -34,6 +34,8 @@ def one(mp):
         ev = os.path.join(tmp, "verif")
         os.makedirs(ev)
         shutil.copy("/verif/known_findings.json", ev)
+        if os.path.exists("/verif/anchors.json"):
+            shutil.copy("/verif/anchors.json", ev)
         alarms, details = [], {}
         for pid in meta.get("properties") or [meta.get("property")]:
             rc2, o2 = sh(f"/verif/bin/tsscheck -property {pid} -tier quick -repo {repo} -verif {ev}", cwd="/verif")
